@@ -195,6 +195,23 @@ class SimDebugBatch(_batching.DebugBatch):
         rec["end"] = len(B.trace)
 
 
+class DerivedSV(A.AsyncScopedValue):
+    """A user subclass of AsyncScopedValue."""
+
+    def __init__(self, live_default):
+        A.AsyncScopedValue.__init__(self, None)
+        self.live_default = live_default
+        self.nset = 0
+
+    def get(self):
+        v = A.AsyncScopedValue.get(self)
+        return self.live_default if v is None else v
+
+    def set(self, value):
+        self.nset += 1
+        A.AsyncScopedValue.set(self, value)
+
+
 class _CtxMixin(object):
     """Logging / monitoring shared by all harness contexts."""
 
@@ -511,7 +528,12 @@ class RealBackend(object):
             if kind < spec["kinds"]:
                 self.items[tok] = SimItem(self.current[kind], tok, key, self)
         nsv = max(1, spec.get("svs", 1))
-        self.svs = [A.AsyncScopedValue(("d", i)) for i in range(nsv)]
+        if spec.get("sv_subclass"):
+            # user subclasses of the public class: the stored value None means "follow the live
+            # default" (derived get()), and set() has a side effect (it is counted)
+            self.svs = [DerivedSV(("d", i)) for i in range(nsv)]
+        else:
+            self.svs = [A.AsyncScopedValue(("d", i)) for i in range(nsv)]
         self.attr = AttrTarget()
         self.attr.x = ("d", "attr")
         self.defaults = [("d", i) for i in range(nsv)] + [("d", "attr")]
@@ -660,7 +682,7 @@ class RealBackend(object):
         self.ev("create", child.token)
         self.ntask_reg = getattr(self, "ntask_reg", 0) + 1
         if ("#%d" % self.ntask_reg) in self.cb_faults:
-            self.cb_faults[child.token] = True
+            self.cb_faults[child.token] = self.cb_faults["#%d" % self.ntask_reg]
         if task is not None:
             task.on_computed.subscribe(lambda t, c=child: self._task_done(c, t))
 
@@ -687,8 +709,8 @@ class RealBackend(object):
                 self.ctx_exit(inst, cm)
         f = self.cb_faults.get(inst.token)
         if f:
-            self.fired("callback_raises")
-            raise SimError("cb:%s" % inst.token)
+            self.fired("callback_raises_base" if f == "base" else "callback_raises")
+            raise (SimBaseError if f == "base" else SimError)("cb:%s" % inst.token)
 
     def item(self, inst, tok, kind, key):
         if kind in self.native_kinds:
@@ -1429,6 +1451,16 @@ class RealBackend(object):
                 # created at top level (no creator), evaluated later from inside the computation
                 ei = Inst("e%d" % j, tmpl, [])
                 ext.append(self.call(None, ei))
+        if spec.get("reset_after_ext") and not self.threaded:
+            # the public asynq.scheduler.reset() between building those tasks and using them: the
+            # thread gets a new scheduler; a task belongs to whichever scheduler evaluates it
+            self.scheduler.on_before_batch_flush.unsubscribe(self._before_flush)
+            self.scheduler.on_after_batch_flush.unsubscribe(self._after_flush)
+            _sched.reset()
+            self.scheduler = A.scheduler.get_scheduler()
+            self.scheduler.on_before_batch_flush.subscribe(self._before_flush)
+            self.scheduler.on_after_batch_flush.subscribe(self._after_flush)
+            self.fired("scheduler_reset_between_build_and_use")
         root = Inst("r", spec["root"]["tmpl"], ext)
         self.root = root
         self.insts["r"] = root
@@ -1595,12 +1627,21 @@ class RealBackend(object):
         self._check_restored("after-gc")
 
     def _check_restored(self, when):
+        for i, sv in enumerate(self.svs):
+            if isinstance(sv, DerivedSV) and (sv.nset or sv._value is not None):
+                self.viol("C07", "restored", "scoped value #%d (a subclass whose stored value None means \"live default\") %s: set() was called %d times by asynq, stored value %r"
+                          % (i, when, sv.nset, sv._value))
+                sv.nset = 0
+                A.AsyncScopedValue.set(sv, None)
         vals = [sv.get() for sv in self.svs] + [self.attr.x]
         if vals != self.defaults:
             self.viol("C07", "restored", "scoped values %s: %r instead of %r" % (when, vals, self.defaults))
             # put them back so that later checks are independent
             for sv, d in zip(self.svs, self.defaults):
-                sv.set(d)
+                if isinstance(sv, DerivedSV):
+                    A.AsyncScopedValue.set(sv, None)
+                else:
+                    sv.set(d)
             self.attr.x = self.defaults[-1]
         if self.active_stack:
             self.viol("C06", "left-active", "contexts still active %s: %s" % (when, [c.cid for c in self.active_stack]))
